@@ -36,7 +36,8 @@ struct Item {
     dims: Vec<(String, String)>,
     unit: String,
     v: i64,
-    obs: Vec<(i64, i64)>,
+    /// histogram buckets: (total, occurrences) as written
+    obs: Vec<(f64, u64)>,
 }
 
 impl Item {
@@ -44,8 +45,26 @@ impl Item {
         json!({"kind": self.kind, "name": self.name,
                "dims": self.dims.iter().map(|(k, v)| json!([k, v])).collect::<Vec<_>>(),
                "unit": self.unit, "v": self.v,
-               "obs": self.obs.iter().map(|(t, o)| json!([t, o])).collect::<Vec<_>>()})
+               "obs": self.obs.iter().map(|(t, o)| obs_json(*t, *o)).collect::<Vec<_>>()})
     }
+}
+
+/// One histogram bucket as [lo, hi, lok, hik, occurrences]: lo / hi = floor / ceiling of the mean
+/// total / occurrences (-1 if it does not fit TLC's 32-bit integers, -2 if the total is not a
+/// non-negative finite number), lok / hik = the same means in units of 1024.
+fn obs_json(total: f64, occ: u64) -> J {
+    let occ_i = occ.min(2_000_000_000) as i64;
+    if occ == 0 {
+        return json!([0, 0, 0, 0, 0]);
+    }
+    if !total.is_finite() || total < 0.0 {
+        return json!([-2, -2, -2, -2, occ_i]);
+    }
+    let mean = total / occ as f64;
+    let (lo, hi) = (mean.floor(), mean.ceil());
+    let small = |x: f64| if x < 2_147_483_647.0 { x as i64 } else { -1 };
+    let k = |x: f64| ((x / 1024.0).floor()).min(2_000_000_000.0) as i64;
+    json!([small(lo), small(hi), k(lo), k(hi), occ_i])
 }
 
 #[derive(Default)]
@@ -90,7 +109,7 @@ impl ValueWriter for ItemWriter<'_> {
                 for o in all {
                     match o {
                         Observation::Repeated { total, occurrences } => {
-                            item.obs.push((as_small_int(*total), (*occurrences).min(2_000_000_000) as i64))
+                            item.obs.push((*total, *occurrences))
                         }
                         // anything else in a multi-observation value is not a histogram bucket
                         _ => item.kind = "mixed",
@@ -185,15 +204,15 @@ fn inc(k: &KeyDef, d: u64, reps: u32, hoist: bool) {
     }
 }
 
-fn record(k: &KeyDef, v: u32, reps: u32, hoist: bool) {
+fn record(k: &KeyDef, v: f64, reps: u32, hoist: bool) {
     if hoist {
         let h = metrics::histogram!(k.name.clone(), &k.labels);
         for _ in 0..reps {
-            h.record(v as f64);
+            h.record(v);
         }
     } else {
         for _ in 0..reps {
-            metrics::histogram!(k.name.clone(), &k.labels).record(v as f64);
+            metrics::histogram!(k.name.clone(), &k.labels).record(v);
         }
     }
 }
@@ -208,14 +227,19 @@ fn set(k: &KeyDef, v: i64) {
 #[derive(Debug, Clone)]
 enum Op {
     Inc { k: usize, d: u64, reps: u32, hoist: bool },
-    Rec { k: usize, v: u32, reps: u32, hoist: bool },
+    /// `reps` samples of value `v`, which belongs to value class `c`
+    Rec { k: usize, c: usize, v: f64, reps: u32, hoist: bool },
     Set { k: usize, v: i64 },
     Desc { k: usize, unit: usize },
 }
 
 /// values recorded into histograms: far enough apart that every reported bucket value is within
 /// 1/16 of exactly one of them (the spec's value classes)
-const CLASSES: &[u32] = &[0, 3, 100, 1000, 5000];
+/// (value, unit): the trace carries the value in that unit (TLC has 32-bit integers: values from
+/// 2^31 on are given in units of 1024). The last class is u32::MAX: larger values are documented to
+/// be capped to it.
+const CLASSES: &[(u64, u64)] =
+    &[(0, 1), (3, 1), (100, 1), (1000, 1), (5000, 1), (70_000, 1), (1_000_000, 1), (2_147_483_648, 1024), (4_294_967_295, 1024)];
 
 struct Plan {
     emit_zero: bool,
@@ -299,9 +323,15 @@ fn plan(seed: u64) -> Plan {
                 Op::Inc { k, d: *[1u64, 1, 2, 3, 7].choose(&mut r).unwrap(), reps: r.random_range(1..=20000), hoist }
             } else if x < 80 {
                 let k = if r.random_bool(0.6) { hot_h } else { *hkeys.choose(&mut r).unwrap() };
-                let base = *CLASSES.choose(&mut r).unwrap();
-                let v = if base >= 100 && r.random_bool(0.3) { base + 1 } else { base };
-                Op::Rec { k, v, reps: r.random_range(1..=500), hoist }
+                let c = r.random_range(0..CLASSES.len());
+                let base = CLASSES[c].0;
+                let mut v = if (100..4_000_000_000).contains(&base) && r.random_bool(0.3) { base + 1 } else { base } as f64;
+                if c == CLASSES.len() - 1 && r.random_bool(0.5) {
+                    v = *[1e12, 4_294_967_296.0, f64::MAX].choose(&mut r).unwrap(); // capped to u32::MAX
+                }
+                // many samples of one value within one readout interval (value x count crosses 2^32)
+                let reps = if r.random_bool(0.3) { r.random_range(4000..=7000) } else { r.random_range(1..=500) };
+                Op::Rec { k, c, v, reps, hoist }
             } else {
                 gv += 1;
                 Op::Set { k: *gkeys.choose(&mut r).unwrap(), v: (t as i64 + 1) * 100_000 + i as i64 * 10 + gv % 10 }
@@ -332,7 +362,7 @@ fn run_one(run: u64, seed: u64) -> (Vec<J>, J) {
     let rec: Recorder = MetricRecorder::new_with_emit_zero_counters(p.emit_zero);
     let keys = Arc::new(p.keys.clone());
     trace::ev(json!({"ev": "Reset", "run": run, "emit_zero": p.emit_zero,
-                     "classes": CLASSES, "keys": keys.iter().map(|k| k.json()).collect::<Vec<_>>()}));
+                     "classes": CLASSES.iter().map(|(v, u)| json!([v / u, u])).collect::<Vec<_>>(), "keys": keys.iter().map(|k| k.json()).collect::<Vec<_>>()}));
     metrics::with_local_recorder(&rec, || {
         for (k, u) in &p.before {
             let kd = &keys[*k];
@@ -376,10 +406,10 @@ fn run_one(run: u64, seed: u64) -> (Vec<J>, J) {
                                 inc(&keys[*k], *d, *reps, *hoist);
                                 trace::ev(json!({"ev": "IncEnd", "t": t, "k": k + 1, "n": n}));
                             }
-                            Op::Rec { k, v, reps, hoist } => {
-                                trace::ev(json!({"ev": "RecStart", "t": t, "k": k + 1, "v": v, "n": reps}));
+                            Op::Rec { k, c, v, reps, hoist } => {
+                                trace::ev(json!({"ev": "RecStart", "t": t, "k": k + 1, "c": c + 1, "v": format!("{v:e}"), "n": reps}));
                                 record(&keys[*k], *v, *reps, *hoist);
-                                trace::ev(json!({"ev": "RecEnd", "t": t, "k": k + 1, "v": v, "n": reps}));
+                                trace::ev(json!({"ev": "RecEnd", "t": t, "k": k + 1, "c": c + 1, "v": format!("{v:e}"), "n": reps}));
                             }
                             Op::Set { k, v } => {
                                 trace::ev(json!({"ev": "SetStart", "t": t, "k": k + 1, "v": v}));
@@ -521,7 +551,17 @@ fn cmd_seq(a: &HashMap<String, String>) {
                             match k.kind {
                                 'c' => inc(k, amount, 1, id % 2 == 0),
                                 'g' => set(k, amount as i64),
-                                _ => record(k, 100, 1, id % 2 == 0),
+                                _ => {
+                                    let v = match st[3].as_str().unwrap_or("v100") {
+                                        "v100" => 100.0,
+                                        "v1e6" => 1_000_000.0,
+                                        "v2e31" => 2_147_483_648.0,
+                                        "vmax" => 4_294_967_295.0,
+                                        "vhuge" => 1e12,
+                                        sym => panic!("tool: unknown value symbol {sym}"),
+                                    };
+                                    record(k, v, st[4].as_u64().unwrap_or(1) as u32, id % 2 == 0)
+                                }
                             }
                         }
                         "Readout" => {
@@ -626,7 +666,7 @@ fn replay_reporter(id: usize, b: &J, interval: Duration) -> J {
     let mut steps_out: Vec<J> = Vec::new();
     let mut seen = 0usize; // events of the sink already attributed to a step
     let mut problem: Option<String> = None;
-    let mut take = |sink: &RecSink, seen: &mut usize| -> Vec<J> {
+    let take = |sink: &RecSink, seen: &mut usize| -> Vec<J> {
         let g = sink.0.lock().unwrap();
         let mut out = Vec::new();
         for e in &g[*seen..] {
@@ -650,7 +690,7 @@ fn replay_reporter(id: usize, b: &J, interval: Duration) -> J {
         match st[0].as_str().unwrap() {
             "Inc" => metrics::with_local_recorder(&recorder, || inc(&key(st[1].as_str().unwrap()), st[2].as_u64().unwrap(), 1, id % 2 == 0)),
             "Set" => metrics::with_local_recorder(&recorder, || set(&key(st[1].as_str().unwrap()), st[2].as_i64().unwrap())),
-            "Rec" => metrics::with_local_recorder(&recorder, || record(&key(st[1].as_str().unwrap()), 100, 1, id % 2 == 0)),
+            "Rec" => metrics::with_local_recorder(&recorder, || record(&key(st[1].as_str().unwrap()), 100.0, 1, id % 2 == 0)),
             "Tick" => {
                 // let real time pass (only while the runtime is driven does the reporter task run)
                 // until the reporter has published at least once more
